@@ -96,6 +96,10 @@ def generate(rng, idx, tier, variant):
                 elif len(ids) >= 1:
                     a, b = rng.choice(ids), rng.choice(ids)
                     lplan[hk].append({'a': 'link', 'src': a, 'sv': rng.choice(subs[a]['endo'] + subs[a]['exo']), 'dst': b, 'dv': rng.choice(subs[b]['exo'] or subs[b]['endo']), 'c': rng.choice([0.0, 0.0, 0.25])})
+                    if rng.random() < 0.35:
+                        # the hook writes whatever the selection is - also into a check variable of a submodel that is
+                        # not being solved, which then moves every iteration and must not hold the others up
+                        lplan[hk][-1].update({'any': True, 'dv': rng.choice(subs[b]['endo'] or subs[b]['exo']), 'c': rng.choice([0.25, 1.0, 3.0]), 'acc': True})
                 else:
                     lplan[hk].append({'a': 'noop'})
         op = {'op': 'solve_t', 't': tn - n if rng.random() < 0.3 else tn, 'select': select, 'opts': opts, 'plans': plans, 'lplan': lplan}
@@ -187,9 +191,11 @@ def make_linker_class(fsic, own):
             elif a == 'link':
                 subs = d['submodels']
                 sel = list(kw.get('submodels') or [])
-                if act['src'] in subs and act['dst'] in subs and act['src'] in sel and act['dst'] in sel:
-                    subs[act['dst']].__dict__['_' + act['dv']][t] = subs[act['src']].__dict__['_' + act['sv']][t] + act['c']
+                if act['src'] in subs and act['dst'] in subs and (act.get('any') or (act['src'] in sel and act['dst'] in sel)):
+                    base_ = subs[act['dst']].__dict__['_' + act['dv']][t] if act.get('acc') else subs[act['src']].__dict__['_' + act['sv']][t]
+                    subs[act['dst']].__dict__['_' + act['dv']][t] = base_ + act['c']
                     rec['linked'] = True
+                    rec['linked_to'] = (act['dst'], act['dv'])
         # what the linker can see of the check variables at this instant
         snap = {'_': [float(d['_' + nm][t]) for nm in d['check']]}
         for sid, sm in d['submodels'].items():
@@ -441,7 +447,10 @@ def execute(schedule, ctx):
             for sid in ids:
                 if sid in sel:
                     continue
-                cells = ref_solver.diff_cells(snap[sid], post[sid])
+                by_hook = {(r['linked_to'][1], tn) for r in probes.get_ctl(L).log if r.get('linked_to') and r['linked_to'][0] == sid}
+                if by_hook:
+                    ctx.probe('hook-writes-into-unselected-submodel')
+                cells = [c for c in ref_solver.diff_cells(snap[sid], post[sid]) if tuple(c) not in by_hook]  # (the user's own hook wrote those)
                 chk('unselected/untouched', not cells, {'submodel': sid, 'changed': cells[:6]})
                 chk('unselected/not-evaluated', not any(b[0] == sid for b in bus), {'submodel': sid})
 
@@ -557,6 +566,19 @@ def execute(schedule, ctx):
         st = str(post['_']['status'][tn])
         it_rec = int(post['_']['iterations'][tn])
         chk('status/alphabet', st in ref_solver.ALPHABET, {'status': st})
+        # the first iteration in [max(1, min_iter), max_iter] at which every check variable of the linker and of the
+        # selected submodels has moved by less than tol is where the period is declared solved (what else moves - a
+        # submodel outside the selection, say - has no say); judged when every recorded value is finite
+        finite = all(np.isfinite(x) for v_ in views for key in v_ for x in v_[key])
+        first_q = None
+        if finite and len(views) == K + 1:
+            for k_ in range(max(1, opts['min_iter']), K + 1):
+                if qualifies(k_):
+                    first_q = k_
+                    break
+            if first_q is not None:
+                ctx.probe('qualifying-iteration-reached')
+                chk('not-declared-solved-at-first-qualifying-iteration', st == '.' and K == first_q, {'first-qualifying': first_q, 'performed': K, 'status': st, 'tol': tol, 'selected': selected})
         if st == '.':
             chk('solved/iteration-bounds', max(1, opts['min_iter']) <= K <= opts['max_iter'], {'iterations': K, 'min_iter': opts['min_iter'], 'max_iter': opts['max_iter']})
             ok = K >= 1 and len(views) > K and qualifies(K)
